@@ -60,6 +60,7 @@ def run(ctx):
     ctx.rule("C07.null-zero", "null arms return all-zero arrays of shapes (N,3,3) and (N,)")
     ctx.rule("C07.crss", "get_crss accepts exactly the six supported (phase, fabric) pairs and raises ValueError for mismatched pairs and invalid ordinals")
     ctx.rule("C07.mobility0", "df == 0 identically when M* = 0")
+    ctx.rule("C07.null-rhs", "for the two viscosity-bound regimes the ODE right-hand side is [L·F | 0 | 0]: texture rates vanish while F still follows dF/dt = L·F")
     ctx.rule("C07.history", "an update that raises (unsupported regime, solver failure) leaves the stored history untouched")
     ctx.rule("C07.rhs-div", "every division evaluated in eval_rhs has a constant/guarded denominator (zero strain rate)")
     I = Interp(ctx.program, perm_chooser=lambda cs: (3, 0, 1, 2))
@@ -108,8 +109,33 @@ def run(ctx):
             (Ma,) = alg.atoms_of(inp2.M)
             z = [alg.subst(lift(c), {Ma: ZERO}) for c in df]
             ctx.ob("C07.mobility0", f"{fabric}:{regime}", all(c.is_zero() for c in z), f"df at M*=0: {short(z)}", loc)
+    null_rhs(ctx)
     history(ctx)
     rhs_divisions(ctx)
+
+
+def null_rhs(ctx):
+    mloc = ctx.program.loc(ctx.program.module("pydrex.minerals"), ctx.program.require_method("pydrex.minerals.Mineral", "update_orientations")) + " (eval_rhs)"
+    for regime in ("min_viscosity", "max_viscosity"):
+        for how in ("field", "callback"):
+            from ..values import Native
+            kw = {}
+            if how == "callback":
+                kw["get_regime"] = Native("get_regime", lambda I_, t, x, r=regime: enum(I_, "pydrex.core.DeformationRegime", r))
+            R = driver.run_update(ctx, regime=regime if how == "field" else "matrix_dislocation", N=2, stub_derivatives=False, **kw)
+            tag = f"{regime}:{how}"
+            if R.exc is not None or not R.rhs_calls:
+                ctx.ob("C07.null-rhs", tag, False, f"update raised {R.exc!r}", mloc)
+                continue
+            t, y, res = R.rhs_calls[0]
+            F = y[:9].reshape(3, 3)
+            Lm = R.Lfun.fn(R.I, t, R.xfun.fn(R.I, t))
+            ref = (Lm @ F).flatten()
+            okF = isinstance(res, np.ndarray) and res.shape == y.shape and all(alg.decide(alg.unfold_all(lift(a)), b)[0] == "equal" for a, b in zip(res[:9], ref))
+            okT = isinstance(res, np.ndarray) and all(alg.unfold_all(lift(c)).is_zero() for c in res[9:])
+            ctx.ob("C07.null-rhs", tag + ":F block == L·F", okF, f"dF/dt block {short(list(res[:3]) if isinstance(res, np.ndarray) else res, 120)}", mloc)
+            ctx.ob("C07.null-rhs", tag + ":texture rates == 0", okT, "", mloc)
+    ctx.floor("C07.null-rhs", 8)
 
 
 def history(ctx):
